@@ -54,6 +54,7 @@ SOLUTIONS = ("exp", "sinpoly", "lorentz")
 COEFFS = ("const", "callable", "mixed", "zerolow", "stable")
 
 
+SHIFTED = ("polyint", "zero1", "zero2", "zero12", "zero0")   # solutions written in t = x - x0 (whole-number initial data)
 CASE_CPU_LIMIT = 120.0
 HALF, PM1, LONG = (0.15, 2.0), (-0.6, 0.55), (0.15, 90.0)
 # name -> (class name or None, constructor parameters, wrapped in InverseRTransform?, interval in the ORIGINAL variable,
@@ -138,8 +139,12 @@ def problem(order, cname, sname, x0=0.0):
     x = sp.symbols("x")
     t = x - sp.Float(x0)
     # "polyint": whole-number initial data y(x0)=1, y'(x0)=-1, y''(x0)=2 (passed to the solver as ints)
+    # "zero*": the same with some of the initial values exactly zero -- y'(x0) = 0, y''(x0) = 0, both, or y(x0) = 0 (added after
+    # seeded change C15-I: initial derivatives left unconverted when exactly one of them vanishes)
     y = {"exp": sp.exp(-x / 2), "sinpoly": sp.sin(x) + x**2 / 5, "lorentz": 1 / (1 + x**2),
-         "polyint": 1 - t + t**2 + sp.sin(t) ** 4 / 3}[sname]
+         "polyint": 1 - t + t**2 + sp.sin(t) ** 4 / 3,
+         "zero1": 1 + t**2 + sp.sin(t) ** 4 / 3, "zero2": 1 - t + t**3 / 2 + sp.sin(t) ** 4 / 3,
+         "zero12": 1 + t**3 / 2 + sp.sin(t) ** 4 / 3, "zero0": t - t**2 + sp.sin(t) ** 4 / 3}[sname]
     if cname == "const":
         a = [sp.Float(1.0), sp.Float(-0.5), sp.Float(2.0), sp.Float(0.7)][: order + 1]
         a[order] = sp.Float([2.0, 1.5, 0.8][order - 1])
@@ -178,9 +183,9 @@ def _solve_case(arg):
     res = WorkerResult(section=f"{solver}:order{order}")
     case = {"order": order, "coeffs": cname, "solution": sname, "transform": tname, "solver": solver, "variant": variant}
     make, (x0, x1) = transforms()[tname]
-    if sname != "polyint":
+    if sname not in SHIFTED:
         x0 = x0 + lattice.jitter(seed, "x0" + tname, 0.0, 0.03)
-    coeffs, dy, fx = problem(order, cname, sname, x0 if sname == "polyint" else 0.0)
+    coeffs, dy, fx = problem(order, cname, sname, x0 if sname in SHIFTED else 0.0)
     xs = np.linspace(x0, x1, 9)
     exact = np.array([d(xs) for d in dy[:order]])          # rows y, y', ... (w.r.t. x)
     tag = f"{solver}:order{order}"
@@ -225,6 +230,15 @@ def _solve_case(arg):
                 odd = np.array([xs[6], xs[2], xs[2], xs[8], xs[0]])
                 got_rev = np.asarray(sol(xs[::-1].copy()), dtype=float)
                 got_odd = np.asarray(sol(odd), dtype=float)
+                # ... and of the CONTENTS of the array it is given: one work array evaluated, refilled in place with other
+                # points and evaluated again gives the values of those points (added after seeded change C15-J: the callable
+                # remembered the per-point Jacobians together with a reference to the caller's array)
+                xs_b = x0 + (xs - x0) * 0.73
+                ref_b = np.asarray(sol(xs_b.copy()), dtype=float)
+                buf = xs.copy()
+                sol(buf)
+                buf[:] = xs_b
+                got_refill = np.asarray(sol(buf), dtype=float)
             except ValueError as exc:
                 msg = str(exc)
                 if solver == "bvp" and tname in DECREASING and ("strictly increasing" in msg or "increasing" in msg):
@@ -254,6 +268,10 @@ def _solve_case(arg):
             or _gt(np.max(np.abs(o2 - g2[:, [6, 2, 2, 8, 0]])), scale_o):
         res.violation(f"{tag}:callable-depends-on-point-order", f"{case}: the returned callable gives different values for the same points "
                       f"in reversed order or with repetitions", case)
+    if got_refill.shape != ref_b.shape or _gt(np.max(np.abs(got_refill - ref_b)), 1e-9 * (1.0 + np.max(np.abs(ref_b)))):
+        res.violation(f"{tag}:callable-stale-after-points-refilled-in-place", f"{case}: the returned callable evaluated on a work array, the array "
+                      f"refilled in place with other points and evaluated again differs from a fresh array of those points by "
+                      f"{np.max(np.abs(got_refill - ref_b)) if got_refill.shape == ref_b.shape else 'shape'}", case)
     if got.ndim == 1:
         got = got[None, :]
     rows_expected = 1 if (with_tf and no_der) else order
@@ -358,6 +376,12 @@ def jobs_for(ctx):
             if sname == "exp" and cname in ("const", "callable") and (ctx.thorough or tname in ("none", "inv-becke", "inv-knowles-k3", "becke", "handy-m3")):
                 for form in ("int-list", "int-array", "float-array"):
                     out.append((order, cname, "polyint", tname, "ivp", ("DOP853", False, form), ctx.seed))
+                if order >= 2:
+                    for zname in ("zero1", "zero2", "zero12", "zero0"):
+                        if order == 2 and zname in ("zero2", "zero12"):
+                            continue   # (y, y') = (1, -1) / (1, 0): the patterns of polyint / zero1
+                        for form in ("float-list", "int-list"):
+                            out.append((order, cname, zname, tname, "ivp", ("DOP853", False, form), ctx.seed))
             # BVP (on the long interval only first order with the condition at the lower end: anything else is ill-conditioned
             # for the operator itself over 90 units, the untransformed solve diverges as well)
             for bc in ("values", "lower-derivative", "upper"):
